@@ -71,10 +71,12 @@ TIMEOUT_S = {"quick": 900, "thorough": 2400}       # watchdog only
 BUDGET_S = {"quick": 600, "thorough": 1800}        # driver backstop; the module cuts its OPTIONAL phases itself after SOFT_S
 SOFT_S = {"quick": 40, "thorough": 240}
 REQUIRE = {
-    "quick": {"enum_phase_completed": 16, "two_queue_schedule_completed": 16, "dotted_sibling_nonempty_checks": 3000,
+    "quick": {"enum_phase_completed": 16, "two_queue_schedule_completed": 16, "batch_schedule_completed": 16, "rejected_batches_judged": 500,
+              "rejected_batches_after_valid_prefix": 200, "dotted_sibling_nonempty_checks": 3000,
               "delete_all_at_K_with_dotted_sibling_nonempty": 300, "ops_checked": 10000, "reopens_checked": 3000, "reopens_nonempty": 1000, "raw_durable_reads": 10000,
               "pulls_nonempty": 1000},
-    "thorough": {"enum_phase_completed": 16, "two_queue_schedule_completed": 16, "dotted_sibling_nonempty_checks": 6000,
+    "thorough": {"enum_phase_completed": 16, "two_queue_schedule_completed": 16, "batch_schedule_completed": 16, "rejected_batches_judged": 1000,
+                 "rejected_batches_after_valid_prefix": 400, "dotted_sibling_nonempty_checks": 6000,
                  "delete_all_at_K_with_dotted_sibling_nonempty": 600, "crash_phase_completed": 16, "ops_checked": 100000, "reopens_checked": 50000, "reopens_nonempty": 20000, "raw_durable_reads": 100000,
                  "pulls_nonempty": 10000, "crash_kills": 100, "crash_kills_nonempty": 40},
 }
@@ -142,8 +144,14 @@ def _rand_ops(rng, qk, n, two):
             op = ["pullx"]
         elif r < 0.63:
             op = ["pushnone"]
-        elif r < 0.80:
+        elif r < 0.75:
             op = ["extend" if qk == "durq" else "update", [rng.randrange(4) for _ in range(rng.randint(0, 5))]]
+        elif r < 0.80:
+            items = [rng.randrange(4) for _ in range(rng.randint(0, 4))]
+            form = rng.choice(["list", "list", "tuple", "gen", "iter"])
+            if form in ("list", "tuple") or rng.random() < 0.3:      # an unacceptable element somewhere in the batch
+                items.insert(rng.randint(0, len(items)), rng.choice(BAD))
+            op = ["batch", items, form]
         elif r < 0.92:
             op = ["count", rng.randrange(4)] if qk == "durq" else ["remove", rng.randrange(4)]
         elif r < 0.95:
@@ -160,12 +168,33 @@ def _crash_case(rng):
     qk = rng.choice(["durq", "dusq"])
     n = rng.randint(3, 14)
     # (pin is two LMDB transactions by construction - remove all, then put - and the statement does not list it: not a crash op)
-    ops = [o[1:] for o in _rand_ops(rng, qk, n, False) if o[1] not in ("pullx", "pushnone", "pin", "syncf")] or [["push", 1]]
+    ops = [o[1:] for o in _rand_ops(rng, qk, n, False) if o[1] not in ("pullx", "pushnone", "pin", "syncf", "batch")] or [["push", 1]]
     if rng.random() < 0.5:
         return {"kind": "crash", "q": qk, "key": "q", "ops": ops, "mode": "async",
                 "k": rng.randrange(len(ops)), "spin": rng.choice([0, 0, 50, 200, 1000, 5000, 20000])}
     return {"kind": "crash", "q": qk, "key": "q", "ops": ops, "mode": "fail",
             "n": rng.randint(1, len(ops)), "phase": rng.choice(["before", "after"])}
+
+
+# batches the tree refuses or cannot consume twice: elements that are no registered dataclass (None, int, str - Durq.extend
+# and Dusq.update raise HierError for them) at every position of the batch, and one-shot iterables (generator, iterator)
+BAD = ["N", "I", "S"]
+_BADOBJ = {"N": None, "I": 5, "S": "Bag(value=0)"}
+BATCHES = [[["N"], "list"], [[0, "N"], "list"], [[0, 1, "N", 2], "list"], [["N", 0], "list"], [[0, "I"], "tuple"],
+           [[1, "S", 2], "list"], [[2, 2, "N"], "tuple"], [[0, 1, 2, 3, "I"], "list"],
+           [[0, 1], "gen"], [[2], "iter"], [[], "gen"], [[0, "N", 1], "gen"], [[3, 3, "S"], "iter"]]
+
+
+def batch_schedule():
+    """deterministic: class x batch x (empty | non-empty queue before); each script is run without a reopen and with a
+    reopen after every single position"""
+    for qk in ("durq", "dusq"):
+        ext = "extend" if qk == "durq" else "update"
+        for items, form in BATCHES:
+            for pre in ([], [[0, "push", 1], [0, ext, [2, 0]]]):
+                ops = pre + [[0, "batch", items, form], [0, "push", 3], [0, "pull"], [0, "batch", items, form], [0, "pull"],
+                             [0, "ctorbad", items, form]]
+                yield {"kind": "two", "q": qk, "keys": ["q"], "trigger": f"batch:{items}:{form}", "ops": ops, "how": "new"}
 
 
 TRIGGERS = {
@@ -213,6 +242,11 @@ def cases(tier, seed, shard, nshards):
         if j % nshards == shard:
             yield c
     yield {"kind": "marker", "q": "-", "what": "two_queue_schedule_completed"}
+    # fixed schedule: batches with an unacceptable element at every position / one-shot iterables
+    for j, c in enumerate(batch_schedule()):
+        if j % nshards == shard:
+            yield c
+    yield {"kind": "marker", "q": "-", "what": "batch_schedule_completed"}
     rng = random.Random(f"{seed}:C23:{shard}")
     if tier == "thorough":
         for _ in range(960 // nshards):
@@ -321,6 +355,65 @@ def _model(qk):
 # --------------------------------------------------------------------------
 # applying one operation to the real object
 # --------------------------------------------------------------------------
+def _batch_obj(items, form):
+    vals = [mk(i) if isinstance(i, int) else _BADOBJ[i] for i in items]
+    if form == "gen":
+        return (v for v in vals)
+    if form == "iter":
+        return iter(vals)
+    return tuple(vals) if form == "tuple" else vals
+
+
+def step_batch(ctx, sub, qk, key, q, model, op, others=()):
+    """extend/update with a batch that holds an unacceptable element, or with a one-shot iterable.  The statement lets the
+    implementation refuse such a batch; what it cannot do is half of it: after a call that RAISED the content - in memory and
+    on disk - must be what it was (the model does not apply a rejected operation); after a call that returned, the content
+    must be either unchanged or the complete batch of acceptable values, and memory and durable copy must agree on which."""
+    cls = CLSNAME[qk]
+    meth = "extend" if qk == "durq" else "update"
+    items, form = op[1], op[2]
+    valid = [i for i in items if isinstance(i, int)]
+    has_bad = len(valid) != len(items)
+    before = model.items()
+    applied = model.copy()
+    model_op(applied, [meth, valid])
+    out = do_op(q, op)
+    ctx.count("ops_checked")
+    ctx.count("op:batch")
+    try:
+        mem = [idx(v) for v in q]
+    except Exception as ex:
+        ctx.violation(f"escape:{type(ex).__name__}:{cls}.__iter__", f"after {meth}: iterating raised {ex!r}")
+        return None
+    raised = out[0] == "raise"
+    if not has_bad and form in ("list", "tuple"):
+        cands = [applied.items()] if not raised else []
+    elif raised:
+        cands = [before]
+    else:
+        cands = [before, applied.items()]
+    if raised or has_bad or form in ("gen", "iter"):
+        ctx.count("rejected_batches_judged" if raised else "unusual_batches_returned")
+        if raised and has_bad and isinstance(items[0], int):
+            ctx.count("rejected_batches_after_valid_prefix")
+        ctx.seen("batch_outcomes", [cls, form, has_bad, out[1] if raised else "returned", mem != before])
+    if mem not in cands:
+        if raised:
+            ctx.violation(f"rejected-op-changed-content:{cls}.{meth}",
+                          f"{cls}.{meth}({form} {items}) raised {out[2]!r} but the in-memory content changed from {before} "
+                          f"to {mem}: a rejected operation must leave the queue as it was")
+        else:
+            ctx.violation(f"batch-mismatch:{cls}.{meth}",
+                          f"{cls}.{meth}({form} {items}) returned {out[1]!r}: content {mem}, before {before}, "
+                          f"acceptable values applied would be {applied.items()}")
+        return None
+    if mem == applied.items() and mem != before:
+        model_op(model, [meth, valid])
+    if not check_content(ctx, sub, qk, key, q, model, "after", meth + "-batch", others):
+        return None
+    return (out[1] if raised else "ret") + (":chg" if mem != before else ":same")
+
+
 def do_op(q, op):
     """-> ("ret", value-as-domain-index-or-plain) | ("raise", ExcTypeName, exc)"""
     name = op[0]
@@ -345,6 +438,8 @@ def do_op(q, op):
             r = q.clear()
         elif name == "count":
             r = q.count(mk(op[1]))
+        elif name == "batch":
+            r = (q.extend if isinstance(q, Durq) else q.update)(_batch_obj(op[1], op[2]))
         elif name == "pin":
             r = q.pin()
         elif name == "syncf":
@@ -471,6 +566,10 @@ def reopen(ctx, sub, how):
 # --------------------------------------------------------------------------
 # run one history with reopens at the given positions (1-based: after that many ops)
 # --------------------------------------------------------------------------
+def _preloaded_raw(qk, batch):
+    return Durq(batch) if qk == "durq" else Dusq(batch)
+
+
 def _preloaded(qk, vals):
     return Durq([mk(i) for i in vals]) if qk == "durq" else Dusq([mk(i) for i in vals])
 
@@ -519,6 +618,29 @@ def run_history(ctx, qk, keys, ops, positions, how):
             if not check_content(ctx, sub, qk, skeys[w], q, models[w], "after", "inject", others=keys):
                 return False, outcomes, snaps, nonempty
             tag = "chg"
+        elif op[0] == "ctorbad":
+            # constructor prefill with such a batch: either it raises (no object) or the object holds a complete batch
+            try:
+                obj = _preloaded_raw(qk, _batch_obj(op[1], op[2]))
+            except Exception as ex:
+                ctx.count("ctor_prefill_rejected")
+                tag = type(ex).__name__
+            else:
+                got = [idx(v) for v in obj]
+                valid = [x for x in op[1] if isinstance(x, int)]
+                full = _model(qk)
+                model_op(full, ["extend" if qk == "durq" else "update", valid])
+                if got not in ([], full.items()):
+                    ctx.violation(f"batch-mismatch:{cls}.__init__", f"{cls}({op[2]} {op[1]}) holds {got}")
+                    return False, outcomes, snaps, nonempty
+                tag = "ret"
+            ctx.count("ops_checked")
+            ctx.count("op:ctorbad")
+        elif op[0] == "batch":
+            tag = step_batch(ctx, sub, qk, skeys[w], qs[w], models[w], op, others=keys)
+            if tag is None:
+                return False, outcomes, snaps, nonempty
+            tag = "chg" if tag.endswith(":chg") else tag
         else:
             tag = step(ctx, sub, qk, skeys[w], qs[w], models[w], op, others=keys)
             if tag is None:
